@@ -898,6 +898,7 @@ XalanTransformer::setStylesheetParam(
     // This replaces any value set previously...
     theParam.m_expression = expression;
     theParam.m_value = XObjectPtr();
+    theParam.m_node = 0;
 }
 
 void
@@ -910,6 +911,7 @@ XalanTransformer::setStylesheetParam(
     // This replaces any expression set previously...
     theParam.m_expression.clear();
     theParam.m_value = object;
+    theParam.m_node = 0;
 }
 
 
@@ -960,7 +962,7 @@ XalanTransformer::setStylesheetParam(
 {
     setStylesheetParam(
         XalanDOMString(qname, m_memoryManager),
-        m_topXObjectFactory->createNodeSet(nodeset));
+        nodeset);
 }
 
 void
@@ -968,9 +970,13 @@ XalanTransformer::setStylesheetParam(
             const XalanDOMString&   qname,
             XalanNode*        nodeset)
 {
-    setStylesheetParam(
-        qname,
-        m_topXObjectFactory->createNodeSet(nodeset));
+    XalanParamHolder&   theParam = m_params[qname];
+
+    // This replaces any expression or value set previously.  The
+    // XObject is created when the parameter is used...
+    theParam.m_expression.clear();
+    theParam.m_value = XObjectPtr();
+    theParam.m_node = nodeset;
 }
 
 bool
@@ -1391,6 +1397,12 @@ XalanTransformer::doTransform(
                 if (theExpression.length() > 0)
                 {
                     theProcessor.setStylesheetParam(theName, theExpression);
+                }
+                else if (theCurrent.m_node != 0)
+                {
+                    theProcessor.setStylesheetParam(
+                        theName,
+                        m_topXObjectFactory->createNodeSet(theCurrent.m_node));
                 }
                 else
                 {
